@@ -297,7 +297,7 @@ class ASL_API Var
 	operator int() const;
 	operator unsigned() const;
 	operator Long() const;
-	operator ULong() const { return (ULong)Long(*this); }
+	operator ULong() const { return ((_type == NUMBER || _type == FLOAT) && _d >= 9223372036854775808.0) ? (ULong)_d : (ULong)Long(*this); }
 	operator String() const;
 	template<class T>
 	operator Array<T>() const;
@@ -344,7 +344,7 @@ class ASL_API Var
 	void operator=(double x);
 	void operator=(int x);
 	void operator=(Long x);
-	void operator=(ULong x) { (*this) = (Long)x; }
+	void operator=(ULong x) { (*this) = (double)x; }
 	void operator=(float x);
 	void operator=(unsigned x);
 	void operator=(long x) { if (x >= -2147483647L - 1 && x <= 2147483647L) *this = (int)x; else *this = (double)x; }
